@@ -8,12 +8,16 @@ f=$(mktemp /tmp/c06-case-XXXX.json)
 python3 - "$idx" "$tier" "$seed" > "$f" <<'PY'
 import json,sys
 idx,tier,seed=int(sys.argv[1]),sys.argv[2],int(sys.argv[3])
-kinds=["cq","batch","alias","handover","mix","reassign","cq","batch","mix","mix"]
-n,steps=(30,70) if tier=="quick" else (160,160)
+kinds=["cq","batch","alias","handover","mix","cq","cq","batch","mix","mix","feegap"]
+n,steps=(88,80) if tier=="quick" else (176,160)
 i=idx
-k=kinds[i%len(kinds)]
-p={"kind":k,"steps":steps+10*(i%4),"stakes":i//len(kinds),"chains":1+(i//3)%2}
-if k in("mix","alias"): p["chains"]=2
+if i<n:
+    k=kinds[i%len(kinds)]
+    p={"kind":k,"steps":steps+10*(i%4),"stakes":i//len(kinds),"chains":1+(i//3)%2}
+    if k in("mix","alias"): p["chains"]=2
+else:
+    k="span"
+    p={"kind":k,"steps":steps+10*(i%4),"stakes":i-n,"chains":2}
 case={"name":"%s-%03d"%(k,i),"seed":seed*1000003+i*7919,"params":p}
 print(json.dumps({"property":"C06","tier":tier,"violation":{"signature":"-","message":"","case":case}}))
 PY
